@@ -31,10 +31,13 @@ pub const PREFIX: &[u8] = b"> ";
 
 pub fn stream_byte(stream: u64, off: u64) -> u8 {
     let h = splitmix64(stream.wrapping_mul(0x1000_0001).wrapping_add(off));
-    if h % 13 == 0 {
-        b'\n'
-    } else {
-        b'a' + ((h >> 8) % 26) as u8
+    match h % 39 {
+        0..=2 => b'\n',
+        // children print whatever they like: bytes that are not valid UTF-8, NUL
+        3 => 0xFF,
+        4 => 0xC3,
+        5 => 0x00,
+        _ => b'a' + ((h >> 8) % 26) as u8,
     }
 }
 
